@@ -16,7 +16,7 @@ import (
 var Shapes = []string{
 	"text", "textcrlf", "html", "cyrillic", "cjk", "utf8big", "dna", "numeric", "base64",
 	"elfx86", "pe", "elfarm64", "elfbogus", "pebogus", "machobogus", "wav", "bmp", "ppm", "runs", "zeros",
-	"skewed", "raredom", "ramp255", "ramp256", "smallalpha", "periodic", "random", "magicmix", "repeatblocks", "sorted", "utf8dirty", "longruns", "farmatch", "crlfcut", "constchunks", "randtext", "bigvocab", "fsdstress", "ffmix", "wordlist", "staircase", "staircase2",
+	"skewed", "raredom", "ramp255", "ramp256", "smallalpha", "periodic", "random", "magicmix", "repeatblocks", "sorted", "utf8dirty", "longruns", "farmatch", "crlfcut", "constchunks", "randtext", "bigvocab", "fsdstress", "ffmix", "wordlist", "wordlist3", "staircase", "staircase2",
 }
 
 var words = strings.Fields(`the of and to a in is that it was for on are as with his they at be this from have or by one had not but what all were
@@ -274,6 +274,23 @@ func Make(shape string, n int, seed int64) []byte {
 				}
 			}
 		}
+	case "wordlist3":
+		// like wordlist, with 3- and 4-letter words mixed in (short words are admitted to a dictionary under other rules)
+		for i := 0; len(b) < n; i++ {
+			ln := 3 + r.Intn(9)
+			if r.Intn(5) == 0 {
+				ln = 3
+			}
+			for k := 0; k < ln; k++ {
+				b = append(b, byte('a'+r.Intn(26)))
+			}
+			if i%10 == 9 {
+				b = append(b, '\n')
+			} else {
+				b = append(b, ' ')
+			}
+		}
+		b = b[:n]
 	case "wordlist":
 		// (almost surely) every word different: 6..11 random lower-case letters - a vocabulary that overflows every dictionary
 		// (word lists, logs full of unique identifiers)
